@@ -1,5 +1,6 @@
 import RattrDriver.JsonUtil
 import RattrModel.Locator
+import RattrModel.ImportWalk
 import RattrModel.Spec.ResolveName
 
 namespace Rattr.Driver.C13
@@ -109,5 +110,91 @@ def handle (payload : Json) : R Json := do
   let env ← parseEnv payload
   let ops ← asArr (← field payload "ops")
   return jList (← steps env [] ops)
+
+/-! ### op `import_walk`: the whole walk over a project (RattrModel/ImportWalk.lean) -/
+
+open Rattr.Walk in
+def parseStmt (j : Json) : R Stmt := do
+  let k ← asStr (← field j "k")
+  let line ← asNat (← field j "line")
+  match k with
+  | "def" => return .def_ line (← asStr (← field j "name")).toList
+  | "imp" =>
+    let a ← asOptStr (← field j "asname")
+    return .imp line (← asComps (← field j "module")) (a.map String.toList)
+  | "from" =>
+    let names ← (← asArr (← field j "names")).mapM fun n => do
+      match (← asArr n) with
+      | [x, a] => return ((← asStr x).toList, (← asOptStr a).map String.toList)
+      | _ => .error "bad alias"
+    return .from_ line (← asNat (← field j "level")) (← asOptComps (← field j "module")) names
+  | _ => .error s!"unknown stmt {k}"
+
+open Rattr.Walk in
+def parseFile (j : Json) : R File := do
+  return { dir := (← asComps (← field j "dir")), stem := (← asStr (← field j "stem")).toList,
+           stmts := (← (← asArr (← field j "stmts")).mapM parseStmt) }
+
+def dotted (d : Dotted) : String := ".".intercalate (d.map String.ofList)
+
+open Rattr.Walk in
+def jCur (c : Cur) : Json := Json.mkObj [("abs", Json.bool c.abs), ("rel", jComps c.path)]
+
+open Rattr.Walk in
+def jSym (s : Sym) : Json :=
+  if s.isImport then
+    Json.mkObj [("t", "import"), ("name", dotted s.name), ("qual", dotted s.qual), ("line", Json.num s.line),
+                ("file", jCur s.file)]
+  else Json.mkObj [("t", "func"), ("name", dotted s.name), ("line", Json.num s.line), ("file", jCur s.file)]
+
+open Rattr.Walk in
+def jStop : Stop → String
+  | .fatal => "fatal"
+  | .crash e => "crash:" ++ e
+  | .outside w => "outside:" ++ w
+  | .fuel => "fuel"
+
+open Rattr.Walk in
+def jLvl : Lvl → String
+  | .warning => "warning"
+  | .error => "error"
+  | .fatal => "fatal"
+
+open Rattr.Walk in
+def jRec (r : Rec) : Json :=
+  let own := r.file.dropLast ++ (if r.stem == sInit then [] else [r.stem])
+  let spec : Json := match Spec.pyResolveName (Spec.packageOf own (r.stem == sInit)) r.call.level r.call.target with
+    | .ok x => Json.mkObj [("ok", jComps x)]
+    | .error e => Json.mkObj [("err", errStr e)]
+  Json.mkObj [("file", jComps r.file), ("cur", jCur r.cur), ("isInit", Json.bool r.call.isInit),
+              ("base", jComps r.call.base), ("target", jOptComps r.call.target), ("level", Json.num r.call.level),
+              ("result", jComps r.result), ("spec", spec)]
+
+open Rattr.Walk in
+def handleWalk (payload : Json) : R Json := do
+  let env ← parseEnv payload
+  let files ← (← asArr (← field payload "files")).mapM parseFile
+  let P : Proj := { env := env, rootComps := (← asComps (← field payload "rootComps")), files := files }
+  let tgt ← parseFile (← field payload "target")
+  let fuel ← asNat (← field payload "fuel")
+  let out := run P fuel tgt
+  let s := out.st
+  let ctxs : List Json := match out with
+    | .ok (t, irs) _ =>
+      Json.mkObj [("key", Json.null), ("syms", jList (t.syms.map jSym))]
+        :: irs.map (fun (k, t) => Json.mkObj [("key", jComps k), ("syms", jList (t.syms.map jSym))])
+    | .stop _ _ => []
+  let oc : String := match out with
+    | .ok _ _ => "ok"
+    | .stop w _ => jStop w
+  return Json.mkObj [
+    ("outcome", oc),
+    ("events", jList (s.events.map fun e =>
+      Json.mkObj [("file", jComps e.file.path), ("cur", jCur e.cur), ("syms", jList (e.syms.map jSym))])),
+    ("contexts", jList ctxs),
+    ("diags", jList (s.diags.map fun d =>
+      Json.mkObj [("level", jLvl d.lvl), ("t", d.tmpl),
+                  ("line", match d.line with | some n => Json.num n | none => Json.null)])),
+    ("trace", jList (s.trace.map jRec))]
 
 end Rattr.Driver.C13
